@@ -94,6 +94,56 @@ def ptrs(rbm):
     return {cell_id(p) for _, p in rbm.named_parameters()}
 
 
+def gpu_kw(ctx, fixed=None):
+    """The gpu argument: False, True (falls back to the CPU with a warning when CUDA is absent; it is the DEFAULT of
+    PositiveWaveFunction and of BinaryRBM) or omitted.  Every demand of this check is device independent."""
+    form = fixed if fixed is not None else str(ctx.rng.choice(["False", "True", "omitted"]))
+    ctx.count("gpu:" + form)
+    return {} if form == "omitted" else {"gpu": form == "True"}
+
+
+def weights_differ(ctx, s, what, case):
+    """Amplitude and phase networks are independent random draws: their weight tensors differ."""
+    import torch
+    if len(s.networks) < 2:
+        return
+    for (n, p), (n2, p2) in zip(s.rbm_am.named_parameters(), s.rbm_ph.named_parameters()):
+        if n.startswith("weights") and p.numel() > 1 and p.shape == p2.shape:
+            ctx.require(what + ": amplitude and phase weights are independent draws (they differ)",
+                        not torch.equal(p.data, p2.data), case, {"parameter": n})
+
+
+def module_gpu_cases(ctx):
+    """module= with every form of the gpu argument: the state must still USE the supplied module."""
+    import torch
+    from qucumber.nn_states import PositiveWaveFunction, ComplexWaveFunction, DensityMatrix
+    from qucumber.rbm import BinaryRBM, PurificationRBM
+    CLS = [PositiveWaveFunction, ComplexWaveFunction, DensityMatrix]
+    for k in range(3):
+        for form in ("omitted", "True", "False"):
+            ctx.torch_seed()
+            m = BinaryRBM(2, 3, **gpu_kw(ctx, form)) if k < 2 else PurificationRBM(2, 3, 1, **gpu_kw(ctx, form))
+            for _, p in m.named_parameters():
+                p.data.add_(torch.tensor(ctx.rng.normal(size=tuple(p.shape)) + 0.1))
+            before = snap(m)
+            case = {"module_ctor": CLS[k].__name__, "gpu": form}
+            ctx.case(case, nontrivial=True)
+            ok, s = ctx.call("module= constructor", case, lambda: CLS[k](2, module=m, **gpu_kw(ctx, form)))
+            if not ok:
+                continue
+            ctx.require("module=: rbm_am IS the supplied module", s.rbm_am is m, case)
+            ctx.require("module=: the module's parameters are unchanged", same(snap(m), before), case)
+            # a later in-place change of the module is a change of the state's amplitude network
+            m.visible_bias.data.add_(1.0)
+            ctx.require("module=: the state uses the module's parameters (a change of the module is seen by the state)",
+                        torch.equal(s.rbm_am.visible_bias.data, m.visible_bias.data), case)
+            if k:
+                ctx.require("module=: rbm_ph is a different object", s.rbm_ph is not m, case)
+                ctx.require("module=: rbm_ph shares no parameter storage with the module", not (ptrs(s.rbm_ph) & ptrs(m)), case)
+                ctx.require("module=: rbm_ph has equal names, shapes and values", same(snap(s.rbm_ph), before), case)
+            ctx.count("module_gpu_case")
+
+
 def check_reinitialised(ctx, net, before, after, case):
     """The statement: reinitialising REDRAWS ALL networks' parameters with unchanged shapes.  Demanded: same names
     and shapes; every weight tensor differs from its previous value; no parameter keeps a stale trained value, i.e.
@@ -121,12 +171,14 @@ def reinit_cases(ctx):
             for via_module in (False, True):
                 ctx.torch_seed()
                 if via_module:
-                    m = BinaryRBM(nv, nh, gpu=False) if k < 2 else PurificationRBM(nv, nh, na, gpu=False)
-                    s = CLS[k](nv, module=m, gpu=False)
+                    m = BinaryRBM(nv, nh, **gpu_kw(ctx)) if k < 2 else PurificationRBM(nv, nh, na, **gpu_kw(ctx))
+                    s = CLS[k](nv, module=m, **gpu_kw(ctx))
                 else:
-                    s = CLS[k](*((nv, nh) if k < 2 else (nv, nh, na)), gpu=False)
+                    s = CLS[k](*((nv, nh) if k < 2 else (nv, nh, na)), **gpu_kw(ctx))
                 case = {"reinit": CLS[k].__name__, "nv": nv, "nh": nh, "na": na, "module": via_module}
                 ctx.case(case, nontrivial=True)
+                if not via_module:
+                    weights_differ(ctx, s, "sizes constructor", case)
                 for rounds in range(2):
                     for net in s.networks:                  # stand-in for training: every parameter becomes non-zero
                         for _, p in getattr(s, net).named_parameters():
@@ -137,6 +189,7 @@ def reinit_cases(ctx):
                         break
                     for net in s.networks:
                         check_reinitialised(ctx, net, before[net], snap(getattr(s, net)), case)
+                    weights_differ(ctx, s, "reinitialize", case)
                     ctx.count("train_then_reinitialize")
 
 
@@ -170,7 +223,7 @@ def one_history(ctx, hid, nops):
             na = [None, 0, int(rng.integers(1, 4))][int(rng.choice(3, p=[0.2, 0.1, 0.7]))]
             if kind == 0 and nh == 0:                             # BinaryRBM(nv, 0): outside what the property fixes
                 nh = None
-            m = BinaryRBM(nv, nh, gpu=False) if kind == 0 else PurificationRBM(nv, nh, na, gpu=False)
+            m = BinaryRBM(nv, nh, **gpu_kw(ctx)) if kind == 0 else PurificationRBM(nv, nh, na, **gpu_kw(ctx))
             for _, p in m.named_parameters():                     # non-zero biases: a "trained" module
                 if p.numel():
                     p.data.copy_(torch.tensor(rng.normal(size=tuple(p.shape)) + 0.1))
@@ -195,7 +248,8 @@ def one_history(ctx, hid, nops):
             if k < 2 and nh == 0:                                 # explicit 0 for a BinaryRBM: not fixed by the property
                 nh = None
             args = (nv, nh) if k < 2 else (nv, nh, na)
-            ok, s = ctx.call("constructor from sizes", ocase, lambda: CLS[k](*args, gpu=False))
+            gk = gpu_kw(ctx)
+            ok, s = ctx.call("constructor from sizes", ocase, lambda: CLS[k](*args, **gk))
             if not ok:
                 return
             states.append(s)
@@ -218,6 +272,7 @@ def one_history(ctx, hid, nops):
                             all(bool((p.data == 0).all()) for n, p in rbm.named_parameters() if "bias" in n), ocase)
                 ctx.require("sizes constructor: weights are drawn, not zero (%s)" % net,
                             all(p.numel() == 0 or bool((p.data != 0).any()) for n, p in rbm.named_parameters() if n.startswith("weights")), ocase)
+            weights_differ(ctx, s, "sizes constructor", ocase)
             if k:
                 ctx.require("sizes constructor: amplitude and phase networks are different objects without shared storage",
                             s.rbm_am is not s.rbm_ph and not (ptrs(s.rbm_am) & ptrs(s.rbm_ph)), ocase)
@@ -243,7 +298,7 @@ def one_history(ctx, hid, nops):
             if k == 2 and rng.random() < 0.5:
                 kwargs["num_aux"] = int(rng.integers(1, 5))
             try:
-                s = CLS[k](nv_arg, module=m, gpu=False, **kwargs)
+                s = CLS[k](nv_arg, module=m, **gpu_kw(ctx), **kwargs)
             except Exception as e:
                 exc = e
             ctx.count("ctor_module:args_%s" % ("agree" if nv_arg == int(m.num_visible) and not kwargs else "disagree"))
@@ -307,6 +362,7 @@ def one_history(ctx, hid, nops):
             labels.append("reinitialize(%d)" % j)
             for net in s.networks:
                 check_reinitialised(ctx, net, before[net], snap(getattr(s, net)), ocase)
+            weights_differ(ctx, s, "reinitialize", ocase)
             ctx.count("reinitialize")
         else:
             continue
@@ -396,6 +452,8 @@ def fit_guard_cases(ctx):
                             ctx.require("refused fit: parameters unchanged",
                                         all(same([(n, p.data) for n, p in getattr(s, net).named_parameters()], before[net]) for net in s.networks), case)
                             ctx.require("refused fit: torch RNG state unchanged", torch.equal(torch.get_rng_state(), rng0), case)
+                            ctx.require("refused fit: the stop_training flag is unchanged", s.stop_training == stop, case,
+                                        {"before": stop, "after": s.stop_training})
                             ctx.count("refused_fit")
                         elif not stop:
                             ctx.require("fit with admissible arguments runs (raised %s)" % type(exc).__name__, exc is None, case, repr(exc))
@@ -465,6 +523,15 @@ def aux_bias_cases(ctx):
                 cfg = [0.05, 0.9, 0.999, 1e-8, oargs.get("weight_decay", 0.0)]
                 mr = m.call("train_adam", cfg, na, hist, [], [0.0] * na)
             ctx.agree("aux_bias after training vs model optimizer run", ab, mr[1], case, atol=0.0, rtol=0.0)
+            # construct -> train -> reinitialise -> train: the invariant holds over any such sequence
+            case2 = dict(case, sequence=["construct", "train", "reinitialize_parameters", "train"])
+            ok, _ = ctx.call("reinitialize_parameters + DensityMatrix.fit with %s" % oname, case2, lambda: (
+                dm.reinitialize_parameters(),
+                dm.fit(data, epochs=2, pos_batch_size=4, k=1, lr=0.05, input_bases=bases, optimizer=ocls, optimizer_args=dict(oargs))))
+            if ok:
+                ab2 = dm.rbm_ph.aux_bias.data
+                ctx.require("aux_bias of rbm_ph exactly 0 after reinitialise + training", bool((ab2 == 0).all()), case2, ab2.tolist())
+                ctx.count("trained_after_reinitialize:" + oname)
             ctx.count("trained:" + oname)
             ctx.traces += 1
 
@@ -480,7 +547,8 @@ def shape_cases(ctx):
                 for na in ((None, 0, 2) if k == 2 else (None,)):
                     args = (nv, nh) if k < 2 else (nv, nh, na)
                     case = {"shapes": CLS[k].__name__, "nv": nv, "nh": nh, "na": na}
-                    ok, s = ctx.call("constructor", case, lambda: CLS[k](*args, gpu=False))
+                    gk = gpu_kw(ctx)
+                    ok, s = ctx.call("constructor", case, lambda: CLS[k](*args, **gk))
                     if not ok:
                         continue
                     ctx.case(case, nontrivial=(nh != nv))
@@ -491,6 +559,7 @@ def shape_cases(ctx):
 
 
 def run(ctx):
+    module_gpu_cases(ctx)
     shape_cases(ctx)
     fit_guard_cases(ctx)
     reinit_cases(ctx)
